@@ -239,6 +239,31 @@ def run_case(case):
                                      'proposes %d contexts for %d configured classes (%s)' % (len(sops2), len(configured), where)))
                 except Exception as exc:
                     viol.append(('c11:request-raises:%s:second' % type(exc).__name__, 'second request() raised %r (%s)' % (exc, where)))
+            # the entity is given one more class after an association object has been created and before its request goes
+            # out: the request is that association's own (snapshotted, documented) context table, and what the peer then
+            # accepts is usable
+            if proposed and as_scu and not toomany:
+                with stubs.patched_dul():
+                    rq3 = asceprovider.AssociationRequester(ae, ae.max_pdu_length, remote)
+                snap = sorted((k, str(v.sop_class)) for k, v in rq3.context_def_list.items())
+                ae.add_scu(assoc.Recorder('late3', [cls(396)]))
+                ts0 = (tslist or ['1.2.840.10008.1.2'])[0]
+                rq3.dul.inbox.append(assoc.decode_pdu(assoc.ac_tree([(k, 0, ts0) for k, _ in snap] + ([(max(k for k, _ in snap) + 2, 0, ts0)] if max(k for k, _ in snap) <= 251 else []), max_len=16384)))
+                try:
+                    rq3.request()
+                    got3 = sorted((i.context_id, str(i.abs_sub_item.name)) for p3 in rq3.dul.sent if getattr(p3, 'pdu_type', None) == 1
+                                  for i in p3.variable_items if type(i).__name__ == 'PresentationContextItemRQ')
+                    if got3 != snap:
+                        viol.append(('c11:request-not-the-associations-table', 'association created, entity then given one more class: the request proposes '
+                                     '%d contexts, the association\'s own table has %d (%s)' % (len(got3), len(snap), where)))
+                    elif sorted(rq3.accepted_contexts) != [k for k, _ in snap]:
+                        viol.append(('c11:accepted-contexts:late-class', 'all %d proposed contexts were accepted (plus one never proposed), usable are %r (%s)' % (
+                            len(snap), sorted(rq3.accepted_contexts)[:6], where)))
+                except Exception as exc:
+                    viol.append(('c11:request-raises:%s:late-class' % type(exc).__name__, 'request() raised %r (%s)' % (exc, where)))
+                for extra_id in [k for k, v in list(ae.context_def_list.items()) if str(v.sop_class) == cls(396)]:
+                    ae.context_def_list.pop(extra_id, None)
+                    ae.supported_scu.pop(cls(396), None)
             reply_iter = _replies(proposed, tslist or ['1.2.840.10008.1.2'])
             continue
         # ---- reply checks
